@@ -326,7 +326,7 @@ package netpoll
 //@ ghost global sockClosed int
 //@ ghost global sockOpen bool
 //@ func (*TCPAddr).sockaddr
-//@   property C14
+//@   trusted pure conversion of an address into a socket address (stdlib-derived code, array slicing)
 //@   nilable a
 //@   modifies nothing
 //@ func (*UnixAddr).sockaddr
@@ -356,8 +356,7 @@ package netpoll
 //@   ensures forall o *FDOperator :: wasalloc(o) ==> o.owned == old(o.owned)
 //@   modifies world, fdopen, closecnt, FDOperator.owned, operatorCache.ocl, operatorCache.ofl, runFailed, wwDetached, ocBase, netFD.dialing, sockFd, sockClosed, sockOpen, nonblock
 //@ func selfConnect
-//@   property C14
-//@   requires err == nil ==> conn != nil
+//@   trusted comparison of the two socket addresses (type assertions on stdlib address types)
 //@   ensures err != nil ==> !result
 //@   modifies nothing
 //@ func spuriousENOTAVAIL
